@@ -3,6 +3,7 @@ package transformer
 import (
 	"errors"
 	"fmt"
+	"maps"
 	"slices"
 	"strings"
 
@@ -70,6 +71,7 @@ func TransformModuleFilesToModel( //nolint:funlen,gocognit,cyclop
 	rawTypeDefs := []*openfgav1.TypeDefinition{}
 	types := []string{}
 	extendedTypeDefs := map[string][]*openfgav1.TypeDefinition{}
+	extendingFiles := []string{}
 	conditions := map[string]*openfgav1.Condition{}
 	moduleFiles := map[string][]string{}
 
@@ -121,6 +123,7 @@ func TransformModuleFilesToModel( //nolint:funlen,gocognit,cyclop
 			if extension {
 				if extendedTypeDefs[module.Name] == nil {
 					extendedTypeDefs[module.Name] = []*openfgav1.TypeDefinition{}
+					extendingFiles = append(extendingFiles, module.Name)
 				}
 
 				extendedTypeDefs[module.Name] = append(extendedTypeDefs[module.Name], typeDef)
@@ -142,7 +145,8 @@ func TransformModuleFilesToModel( //nolint:funlen,gocognit,cyclop
 			rawTypeDefs = append(rawTypeDefs, typeDef)
 		}
 
-		for name, condition := range mdl.GetConditions() {
+		for _, name := range slices.Sorted(maps.Keys(mdl.GetConditions())) {
+			condition := mdl.GetConditions()[name]
 			if _, ok := conditions[name]; ok {
 				lineIndex := utils.GetConditionLineNumber(name, lines)
 				line, col := utils.ConstructLineAndColumnData(lines, lineIndex, name)
@@ -163,7 +167,10 @@ func TransformModuleFilesToModel( //nolint:funlen,gocognit,cyclop
 		}
 	}
 
-	for filename, typeDefs := range extendedTypeDefs {
+	// apply the extensions in the order of the module list, so that the result and the order of
+	// the reported errors do not depend on map iteration
+	for _, filename := range extendingFiles {
+		typeDefs := extendedTypeDefs[filename]
 		lines := moduleFiles[filename]
 
 		for _, typeDef := range typeDefs {
@@ -213,7 +220,8 @@ func TransformModuleFilesToModel( //nolint:funlen,gocognit,cyclop
 				existingRelationNames = append(existingRelationNames, name)
 			}
 
-			for name, relation := range typeDef.GetRelations() {
+			for _, name := range slices.Sorted(maps.Keys(typeDef.GetRelations())) {
+				relation := typeDef.GetRelations()[name]
 				if slices.Contains(existingRelationNames, name) {
 					// look the relation up inside the block of this extension: the same relation name
 					// may also be defined by an earlier block of the file, for another type
